@@ -3,7 +3,7 @@
    server_decide / client_decide / server_auth / client_connect / handshake are the transcriptions of
    ServeHTTP's authentication branch, clientImpl.connect and the header codec (model/C10_Negotiate.v);
    spec_server / spec_client are written from PROTOCOL.md (lattice Unknown / Fin / Unlimited / Auto). *)
-From Hy Require Import model.C10_Negotiate proof.C10_Negotiate.
+From Hy Require Import model.C10_Negotiate proof.C10_Negotiate model.C10_Reuse proof.C10_Reuse.
 From Coq Require Import ZArith.
 Local Open Scope N_scope.
 
@@ -192,3 +192,27 @@ Theorem C10_reauth_example :
   map snd (snd r) = [IBrutal 1000000; IBrutal 1000000; IBrutal 1000000].
 Proof. exact reauth_example. Qed.
 Print Assumptions C10_reauth_example.
+
+(* One client Config object, several handshakes (NewClient keeps the pointer; a reconnecting client may be handed
+   the same object every time): client_seq threads the object through the sequence.  Every handshake of the
+   sequence is the one a FRESH Config holding the caller's current limits would make - same outcome, same declared
+   receive rate - and it leaves the object's limits exactly as the caller set them (new_client only reads them;
+   the correspondence check compares the real object's bandwidth fields after every real NewClient). *)
+Theorem C10_reused_config_is_fresh : forall steps c,
+  client_seq c steps =
+  map (fun p : client_cfg * seq_step =>
+         (fst p, client_connect (fst p) (snd (snd p)), req_to_header (c_max_rx (fst p))))
+      (combine (cfg_in_force c steps) steps).
+Proof. exact client_seq_fresh. Qed.
+Print Assumptions C10_reused_config_is_fresh.
+
+(* ... in particular without caller writes: whatever the earlier handshakes were answered ("auto", numbers, 0,
+   junk, in any order), the handshake answered vals decides what the specification says for the ORIGINAL limits
+   and THIS answer, and the object still holds the original limits afterwards. *)
+Theorem C10_reused_config_history_independent : forall c pre vals post,
+  Forall (fun s : seq_step => fst s = None) (pre ++ (None, vals) :: post) ->
+  nth_error (client_seq c (pre ++ (None, vals) :: post)) (length pre) =
+    Some (c, client_connect c vals, req_to_header (c_max_rx c)) /\
+  co_decision (client_connect c vals) = spec_client c (resp_from_header vals).
+Proof. exact reused_config_history_independent. Qed.
+Print Assumptions C10_reused_config_history_independent.
